@@ -86,7 +86,7 @@ def _generated_to_auto_increment(expression: exp.Expr) -> exp.Expr:
 
 
 def _offset_to_limit(expression: exp.Expr) -> exp.Expr:
-    if not isinstance(expression, exp.Select):
+    if not isinstance(expression, (exp.Select, exp.SetOperation)):
         return expression
 
     offset = expression.args.get("offset")
@@ -183,6 +183,12 @@ class SQLiteGenerator(generator.Generator):
             ]
         ),
         exp.StrPosition: lambda self, e: strposition_sql(self, e, func_name="INSTR"),
+        **{
+            set_op: transforms.preprocess(
+                [_offset_to_limit], generator=lambda self, e: self.set_operations(e)
+            )
+            for set_op in (exp.Union, exp.Intersect, exp.Except)
+        },
         exp.TableSample: no_tablesample_sql,
         exp.TimeStrToTime: lambda self, e: self.sql(e, "this"),
         exp.TimeToStr: lambda self, e: self.func("STRFTIME", e.args.get("format"), e.this),
